@@ -202,6 +202,16 @@ class LibMixin:
         obj = HObj((cls.module, cls.name))
         ref = st.alloc(obj)
         init = load.find_method(cls.module, cls.name, "__init__")
+        cnode = load.get_module(cls.module).classes.get(cls.name) if cls.module.startswith("liquid") else None
+        if init is None and cnode is not None and any(ast.unparse(d).split("(")[0].endswith("dataclass") for d in cnode.decorator_list):
+            names = [st_.target.id for st_ in cnode.body if isinstance(st_, ast.AnnAssign) and isinstance(st_.target, ast.Name)]
+            vals = dict(zip(names, args))
+            vals.update(kwargs)
+            missing = [n for n in names if n not in vals]
+            if missing or len(args) > len(names) or any(k not in names for k in kwargs):
+                return [self.raised(st, "TypeError", f"{cls.name}.__init__() arguments")]
+            obj.fields.update(vals)
+            return [(st, ref)]
         if init is None:
             chain = load.mro(cls.module, cls.name)
             ext = [c for c in chain if not c[0].startswith("liquid")]
